@@ -51,7 +51,12 @@ CHAIN_FAMILY = [
      [{'order': [('p.id', False)], 'final': ('list',)}, {'order': [('p.id', False)], 'final': ('slice', 2, 2)}, {'order': [('p.id', False)], 'final': ('slice', 0, 1)},
       {'order': [('p.id', False)], 'final': ('limit', 0, None)}, {'order': [('p.id', False)], 'final': ('slice', 1, None)}, {'order': [('p.id', False)], 'final': ('limit', 2, 1)}]),
     ('(p.a for p in P)', {},
-     [{'final': ('aggr', 'COUNT')}, {'distinct': False, 'final': ('aggr', 'MAX')}, {'final': ('aggr', 'MIN')}, {'distinct': True, 'final': ('list',)}, {'final': ('list',)}]),
+     [{'final': ('aggr', 'COUNT')}, {'distinct': False, 'final': ('aggr', 'MAX')}, {'final': ('aggr', 'MIN')}, {'distinct': True, 'final': ('list',)}, {'final': ('list',)},
+      {'distinct': False, 'final': ('list',)}]),
+    ('((p.a, p.b) for p in P if p.a > x)', {'x': [INT(1)]},
+     [{'final': ('list',)}, {'distinct': False, 'final': ('list',)}, {'distinct': True, 'final': ('list',)}, {'final': ('aggr', 'COUNT')}]),
+    ('(p.b for p in P)', {},
+     [{'final': ('list',)}, {'distinct': False, 'final': ('list',)}, {'distinct': True, 'final': ('list',)}]),
     ('(p.a for p in P)', {},
      [{'final': ('aggr', 'COUNT', None, d)} for d in (None, True, False)] + [{'final': ('aggr', 'SUM', None, d)} for d in (None, True, False)]),
     ('(p.s for p in P)', {},
